@@ -97,6 +97,7 @@ struct World {
   std::unordered_map<int, uint64_t> bound_val;
   std::unordered_map<int, long> bound_err;
   int fault_node = -1, fault_call = -1;      // modelled fault: the callable of this node throws on this call
+  bool tracked_faults = true;                // value copies/moves are throw points (off when that class is a known finding)
   bool abandoned = false;                    // case ends with a never-completing leaf (behind unstoppable): teardown of running ops is the harness's doing
   // contexts
   int current_ctx = 0;
@@ -142,23 +143,23 @@ struct TrackedT {
   uint64_t payload = 0;
   explicit TrackedT(uint64_t p) : payload(p) { reg(1); W().tracked_ctor++; }
   TrackedT(const TrackedT& o) noexcept(NX) : payload(o.payload) {
-    if constexpr (!NX) W().throw_point("Tracked copy");
+    if constexpr (!NX) if (W().tracked_faults) W().throw_point("Tracked copy");
     o.check_readable("copied from");
     reg(1); W().tracked_copy++;
   }
   TrackedT(TrackedT&& o) noexcept(NX) : payload(o.payload) {
-    if constexpr (!NX) W().throw_point("Tracked move");
+    if constexpr (!NX) if (W().tracked_faults) W().throw_point("Tracked move");
     o.check_readable("moved from");
     reg(1); W().tracked_move++;
     auto it = W().live.find(&o); if (it != W().live.end()) it->second = 2;
   }
   TrackedT& operator=(const TrackedT& o) noexcept(NX) {
-    if constexpr (!NX) W().throw_point("Tracked copy-assign");
+    if constexpr (!NX) if (W().tracked_faults) W().throw_point("Tracked copy-assign");
     o.check_readable("copy-assigned from"); check_live("assigned to");
     payload = o.payload; W().live[this] = 1; return *this;
   }
   TrackedT& operator=(TrackedT&& o) noexcept(NX) {
-    if constexpr (!NX) W().throw_point("Tracked move-assign");
+    if constexpr (!NX) if (W().tracked_faults) W().throw_point("Tracked move-assign");
     o.check_readable("move-assigned from"); check_live("assigned to");
     payload = o.payload; W().live[this] = 1;
     if (&o != this) { auto it = W().live.find(&o); if (it != W().live.end()) it->second = 2; }
